@@ -81,13 +81,14 @@ static bool Guarded(F fn) {
 }
 
 // ---- Variant ------------------------------------------------------------------------
-using Var = nop::Variant<ElemA, ElemB>;
+using Var = nop::Variant<ElemA, int, ElemB>;   // a trivially destructible alternative sits between the tracked ones
 
 struct VarVisitor {
   int* calls; int* type; int* val;
   void operator()(nop::EmptyVariant) const { (*calls)++; *type = -1; *val = 0; }
   void operator()(const ElemA& a) const { (*calls)++; *type = 0; *val = a.v; if (a.magic != kAlive) g_life[0].dead_use++; }
-  void operator()(const ElemB& b) const { (*calls)++; *type = 1; *val = b.v; if (b.magic != kAlive) g_life[1].dead_use++; }
+  void operator()(const int& i) const { (*calls)++; *type = 1; *val = i; }
+  void operator()(const ElemB& b) const { (*calls)++; *type = 2; *val = b.v; if (b.magic != kAlive) g_life[1].dead_use++; }
 };
 
 static void ObserveVar(Var* slots[], JsonOut& o) {
@@ -106,8 +107,10 @@ static void ObserveVar(Var* slots[], JsonOut& o) {
       o.kv_num("vt", type);
       o.kv_num("val", val);
       o.kv_bool("ga", v.get<ElemA>() != nullptr);
+      o.kv_bool("gi", v.get<int>() != nullptr);
       o.kv_bool("gb", v.get<ElemB>() != nullptr);
       o.kv_bool("isa", v.is<ElemA>());
+      o.kv_bool("isi", v.is<int>());
       o.kv_bool("isb", v.is<ElemB>());
     }
     o.end_obj();
@@ -140,6 +143,7 @@ static void RunVariant(const Json& ops, JsonOut& o) {
         else if (op == "new_ev") slots[s] = new (mem) Var(nop::EmptyVariant{});
         else if (op == "new_a") { ElemA e(x); slots[s] = new (mem) Var(e); }
         else if (op == "new_b") { ElemB e(x); slots[s] = new (mem) Var(std::move(e)); }
+        else if (op == "new_i") { slots[s] = new (mem) Var(x); }
         else if (op == "new_c") { ElemC c(x); slots[s] = new (mem) Var(c); }
         else if (op == "new_copy") { if (!slots[p]) { bad = true; return; } slots[s] = new (mem) Var(*slots[p]); }
         else if (op == "new_move") { if (!slots[p]) { bad = true; return; } slots[s] = new (mem) Var(std::move(*slots[p])); }
@@ -153,6 +157,7 @@ static void RunVariant(const Json& ops, JsonOut& o) {
       else if (op == "assign_move") { if (!slots[p]) { bad = true; return; } v = std::move(*slots[p]); }
       else if (op == "assign_a") { ElemA e(x); v = e; }
       else if (op == "assign_b") { ElemB e(x); v = std::move(e); }
+      else if (op == "assign_i") { v = x; }
       else if (op == "assign_c") { ElemC c(x); v = c; }
       else if (op == "assign_ev") v = nop::EmptyVariant{};
       else if (op == "become") v.Become(k);
@@ -185,6 +190,9 @@ static void RunVariant(const Json& ops, JsonOut& o) {
 }
 
 // ---- Optional / Entry ---------------------------------------------------------------
+template <typename T> struct ConvSource;
+template <> struct ConvSource<ElemA> { using type = ElemC; };   // ElemA is constructible from ElemC
+template <> struct ConvSource<int> { using type = short; };
 template <typename Opt, typename T>
 struct OptMachine {
   static int ValOf(const ElemA& e) { if (e.magic != kAlive) g_life[0].dead_use++; return e.v; }
@@ -218,6 +226,7 @@ struct OptMachine {
       bool bad = false;
       int taken = 0;
       bool has_taken = false;
+      int conv_src_empty = -1;
       if (g_throw_countdown && (op == "new_val" || op == "assign_val")) g_throw_countdown = 2;
       bool threw = Guarded([&]() {
         void* mem = storage[s];
@@ -240,6 +249,14 @@ struct OptMachine {
         else if (op == "clear") v.clear();
         else if (op == "take") { if (v.empty()) { bad = true; return; } T t(v.take()); taken = ValOf(t); has_taken = true; }
         else if (op == "destroy") { v.~Opt(); slots[s] = nullptr; }
+        else if (op == "assign_conv_move" || op == "assign_conv_copy") {
+          // assignment from an Optional of a *different* element type (U converts to T)
+          using U = typename ConvSource<T>::type;
+          nop::Optional<U> src;
+          if (!opj.at("srcempty").truthy()) src = U(x);
+          if (op == "assign_conv_move") v = std::move(src); else v = src;
+          conv_src_empty = src.empty() ? 1 : 0;
+        }
         else bad = true;
       });
       g_throw_countdown = 0;
@@ -251,6 +268,7 @@ struct OptMachine {
       o.kv_bool("throw", opj.at("throw").truthy());
       o.kv_bool("threw", threw);
       if (has_taken) o.kv_num("taken", taken);
+      if (conv_src_empty >= 0) { o.kv_bool("src_after_empty", conv_src_empty == 1); o.kv_bool("srcempty", opj.at("srcempty").truthy()); }
       if (bad) o.kv_bool("bad", true);
       Observe(slots, o);
       EmitLife(o);
